@@ -33,7 +33,7 @@ fn n_grid_c() -> u64 {
 
 // mixed batches: dead IDs in front of live ones, duplicates, same-deadline modification
 fn n_grid_d() -> u64 {
-    20
+    24
 }
 
 fn grid(_p: &EpParams) -> u64 {
@@ -444,7 +444,7 @@ async fn grid_c(p: &EpParams, case: u64) -> EpReport {
 /// accepted request must be treated as if it had been sent alone.
 async fn grid_d(p: &EpParams, case: u64) -> EpReport {
     let mut rep = EpReport::default();
-    let stream = matches!(case, 2 | 3 | 8 | 12 | 13 | 14 | 15 | 18 | 19);
+    let stream = matches!(case, 2 | 3 | 8 | 12 | 13 | 14 | 15 | 18 | 19 | 22 | 23);
     let mut su = setup(p, stream).await;
     if su.ids.len() != 2 {
         rep.inconclusive("setup did not hand out two messages");
@@ -523,6 +523,19 @@ async fn grid_d(p: &EpParams, case: u64) -> EpReport {
             let got = su.seq.pull(&s, 10, true).await;
             if got.len() != 2 {
                 rep.viol("C05", "C05:nack-not-available", format!("ModifyAckDeadline([a2, a1, a2], 0) made {} of 2 messages available", got.len()));
+            }
+        }
+        20 | 21 | 22 | 23 => {
+            // as many entries as there are outstanding deliveries (two), one of them unknown: the
+            // delivery that is *not* named keeps its lease (extension 20/22, shortening 21/23; unary
+            // 20/21, control message 22/23)
+            let secs = if case % 2 == 0 { 30 } else { 3 };
+            if case < 22 {
+                label = if secs == 30 { "unary [unknown, a1] +30 with two deliveries outstanding" } else { "unary [unknown, a1] +3 with two deliveries outstanding" };
+                su.seq.modify(&s, &[unknown.clone(), a1.clone()], secs).await;
+            } else {
+                label = if secs == 30 { "stream [unknown, a1] secs [30, 30] with two deliveries outstanding" } else { "stream [unknown, a1] secs [3, 3] with two deliveries outstanding" };
+                do_modify(&mut su, "stream", &[unknown.clone(), a1.clone()], &[secs, secs]).await;
             }
         }
         18 | 19 => {
